@@ -592,33 +592,31 @@ Lemma chain_prec_inj : forall o o', is_chain_op o' = true -> binprec o = binprec
 Proof. intros o o' C E. destruct o'; try discriminate; destruct o; simpl in *; try discriminate; reflexivity. Qed.
 
 Definition v2_claim (e : expr) : Prop :=
-  pr2 MDisp e = pr1 e 0 /\ (forall q, (is_un e = true -> q <= unary_prec) -> pr2 (MOperand q) e = pr1 e q) /\ (forall o, is_chain_op o = true -> pr2 (MChain o) e = pr1 e (binprec o)) /\ (forall o, is_chain_op o = true -> same_chain_op o e = false -> pr2 (MChain o) e = pr1 e (S (binprec o))).
+  pr2 MDisp e = pr1 e 0 /\
+  (forall q, pr2 (MOperand q) e = pr1 e q) /\
+  (forall o, is_chain_op o = true -> pr2 (MChain o) e = pr1 e (binprec o)) /\
+  (forall o, is_chain_op o = true -> same_chain_op o e = false -> pr2 (MChain o) e = pr1 e (S (binprec o))).
 
 Lemma chain_prec_le2 : forall o, is_chain_op o = true -> binprec o <= 2.
 Proof. destruct o; simpl; intros; try discriminate; lia. Qed.
 
-Lemma v2_nonbin : forall e X, is_bin e = false ->
-  (forall m, pr2 m e = X) -> (forall q, (is_un e = true -> q <= unary_prec) -> pr1 e q = X) -> v2_claim e.
+(* primary expressions: neither printer looks at the context *)
+Lemma v2_primary : forall e X, (forall m, pr2 m e = X) -> (forall q, pr1 e q = X) -> v2_claim e.
 Proof.
-  intros e X NB H2 H1. unfold v2_claim. repeat split; intros.
-  - rewrite H2. symmetry. apply H1. intros; lia.
-  - rewrite H2. symmetry. apply H1. assumption.
-  - rewrite H2. symmetry. apply H1. intros. pose proof (chain_prec_le2 _ H). unfold unary_prec. lia.
-  - rewrite H2. symmetry. apply H1. intros. pose proof (chain_prec_le2 _ H). unfold unary_prec. lia.
+  intros e X H2 H1. unfold v2_claim. repeat split; intros; rewrite H2; symmetry; apply H1.
 Qed.
 
-Lemma v2_eq : forall e, unary_under_postfix e = false -> right_nested_chain e = false -> v2_claim e.
+Lemma v2_eq : forall e, right_nested_chain e = false -> v2_claim e.
 Proof.
-  induction e using expr_ind2; intros U R; simpl in U, R.
-  - apply (v2_nonbin _ [t]); auto.
-  - apply orb_false_elim in U. destruct U as [Ux Uy].
-    apply orb_false_elim in R. destruct R as [R Ry]. apply orb_false_elim in R. destruct R as [RC Rx].
-    destruct (IHe1 Ux Rx) as (_ & Bx & Cx & _). destruct (IHe2 Uy Ry) as (_ & By & _ & Dy).
+  induction e using expr_ind2; intros R; simpl in R.
+  - apply (v2_primary _ [t]); auto.
+  - apply orb_false_elim in R. destruct R as [R Ry]. apply orb_false_elim in R. destruct R as [RC Rx].
+    destruct (IHe1 Rx) as (_ & Bx & Cx & _). destruct (IHe2 Ry) as (_ & By & _ & Dy).
     pose proof (binprec_le7 o) as P7.
     set (p := binprec o) in *.
     set (body := pr1 e1 p ++ TOp o :: pr1 e2 (S p)).
     assert (PB : pr2 (MOperand p) e1 ++ TOp o :: pr2 (MOperand (S p)) e2 = body).
-    { unfold body. rewrite Bx by (intros; unfold unary_prec; lia). rewrite By by (intros; unfold unary_prec; lia). reflexivity. }
+    { unfold body. rewrite Bx, By. reflexivity. }
     assert (CB : is_chain_op o = true -> pr2 (MChain o) e1 ++ TOp o :: pr2 (MChain o) e2 = body).
     { intros C. unfold body. rewrite Cx by exact C. rewrite C in RC. simpl in RC. rewrite Dy by assumption. reflexivity. }
     assert (DB : (if chain_case o (EBin o e1 e2)
@@ -628,7 +626,7 @@ Proof.
       apply CB. unfold chain_case in CC. apply andb_prop in CC. tauto. }
     unfold v2_claim. repeat split.
     + cbn [pr2]. fold p. rewrite DB. reflexivity.
-    + intros q _. cbn [pr2 pr1]. fold p. rewrite DB, PB. fold body.
+    + intros q. cbn [pr2 pr1]. fold p. rewrite DB, PB. fold body.
       destruct (q <=? p) eqn:C.
       * apply Nat.leb_le in C. replace (p <? q) with false by (symmetry; apply Nat.ltb_ge; lia). reflexivity.
       * apply Nat.leb_gt in C. replace (p <? q) with true by (symmetry; apply Nat.ltb_lt; lia). reflexivity.
@@ -643,65 +641,56 @@ Proof.
       destruct (p <? binprec o') eqn:C.
       * apply Nat.ltb_lt in C. replace (p <? S (binprec o')) with true by (symmetry; apply Nat.ltb_lt; lia). reflexivity.
       * apply Nat.ltb_ge in C. replace (p <? S (binprec o')) with false by (symmetry; apply Nat.ltb_ge; lia). reflexivity.
-  - destruct (IHe U R) as (_ & Bx & _ & _).
-    apply (v2_nonbin _ (TOp o :: pr1 e unary_prec)); auto.
-    + intros m. simpl. rewrite Bx by auto. reflexivity.
-    + intros q Q. simpl. replace (unary_prec <? q) with false by (symmetry; apply Nat.ltb_ge; apply Q; reflexivity). reflexivity.
-  - apply orb_false_elim in U. destruct U as [NU Ux]. destruct (IHe Ux R) as (_ & Bx & _ & _).
-    apply (v2_nonbin _ (pr1 e highest_prec ++ [TP PERIOD; l])); auto.
-    intros m. simpl. rewrite Bx by (rewrite NU; discriminate). reflexivity.
-  - apply orb_false_elim in U. destruct U as [U Ui]. apply orb_false_elim in U. destruct U as [NU Ux].
-    apply orb_false_elim in R. destruct R as [Rx Ri].
-    destruct (IHe1 Ux Rx) as (_ & Bx & _ & _). destruct (IHe2 Ui Ri) as (Ai & _ & _ & _).
-    apply (v2_nonbin _ (pr1 e1 highest_prec ++ TP LBRACK :: pr1 e2 0 ++ [TP RBRACK])); auto.
-    intros m. simpl. rewrite Bx by (rewrite NU; discriminate). rewrite Ai. reflexivity.
-  - apply orb_false_elim in U. destruct U as [U Ua]. apply orb_false_elim in U. destruct U as [NU Uf].
-    apply orb_false_elim in R. destruct R as [Rf Ra].
-    destruct (IHe Uf Rf) as (_ & Bf & _ & _).
-    apply (v2_nonbin _ (pr1 (ECall e a) 0)); auto.
-    intros m. simpl. rewrite Bf by (rewrite NU; discriminate). f_equal. f_equal. f_equal.
-    clear -H Ua Ra. induction a as [|x l IH]; [reflexivity|]. simpl in *.
-    destruct H as [Hx Hl]. apply orb_false_elim in Ua. destruct Ua as [Ux Ul].
-    apply orb_false_elim in Ra. destruct Ra as [Rx Rl].
-    destruct (Hx Ux Rx) as (Ax & _). rewrite Ax. rewrite (IH Hl Ul Rl). reflexivity.
-  - destruct (IHe U R) as (Ax & _ & _ & _).
-    apply (v2_nonbin _ (pr1 (EParen e) 0)); auto.
+  - (* unary: parenthesised exactly when the context binds tighter, in both printers *)
+    destruct (IHe R) as (_ & Bx & _ & _).
+    unfold v2_claim. repeat split.
+    + cbn [pr2 pr1]. rewrite Bx. reflexivity.
+    + intros q. cbn [pr2 pr1]. rewrite Bx. reflexivity.
+    + intros o' C'. pose proof (chain_prec_le2 _ C'). cbn [pr2 pr1]. rewrite Bx.
+      replace (unary_prec <? binprec o') with false by (symmetry; apply Nat.ltb_ge; unfold unary_prec; lia). reflexivity.
+    + intros o' C' _. pose proof (chain_prec_le2 _ C'). cbn [pr2 pr1]. rewrite Bx.
+      replace (unary_prec <? S (binprec o')) with false by (symmetry; apply Nat.ltb_ge; unfold unary_prec; lia). reflexivity.
+  - destruct (IHe R) as (_ & Bx & _ & _).
+    apply (v2_primary _ (pr1 e highest_prec ++ [TP PERIOD; l])); auto.
+    intros m. simpl. rewrite Bx. reflexivity.
+  - apply orb_false_elim in R. destruct R as [Rx Ri].
+    destruct (IHe1 Rx) as (_ & Bx & _ & _). destruct (IHe2 Ri) as (Ai & _ & _ & _).
+    apply (v2_primary _ (pr1 e1 highest_prec ++ TP LBRACK :: pr1 e2 0 ++ [TP RBRACK])); auto.
+    intros m. simpl. rewrite Bx, Ai. reflexivity.
+  - apply orb_false_elim in R. destruct R as [Rf Ra].
+    destruct (IHe Rf) as (_ & Bf & _ & _).
+    apply (v2_primary _ (pr1 (ECall e a) 0)); auto.
+    intros m. simpl. rewrite Bf. f_equal. f_equal. f_equal.
+    clear -H Ra. induction a as [|x l IH]; [reflexivity|]. simpl in *.
+    destruct H as [Hx Hl]. apply orb_false_elim in Ra. destruct Ra as [Rx Rl].
+    destruct (Hx Rx) as (Ax & _). rewrite Ax. rewrite (IH Hl Rl). reflexivity.
+  - destruct (IHe R) as (Ax & _ & _ & _).
+    apply (v2_primary _ (pr1 (EParen e) 0)); auto.
     intros m. simpl. rewrite Ax. reflexivity.
 Qed.
 
 Theorem print2_eq_print1_when : forall e, v2_safe e = true -> print2 e = print1 e.
 Proof.
-  intros e S. unfold v2_safe in S. apply andb_prop in S. destruct S as [S1 S2].
-  apply negb_true_iff in S1. apply negb_true_iff in S2.
-  exact (proj1 (v2_eq e S1 S2)).
+  intros e S. unfold v2_safe in S. apply negb_true_iff in S.
+  exact (proj1 (v2_eq e S)).
 Qed.
 
 (* parser-produced trees are always safe: explicit ParenExpr nodes carry the grouping *)
 Lemma pwf_v2_safe : forall e, pwf e -> v2_safe e = true.
 Proof.
-  intros e W. unfold v2_safe. apply andb_true_intro. split; apply negb_true_iff.
-  - revert W. unfold pwf. induction e using expr_ind2; simpl; intros W; auto.
-    + destruct W as (_ & _ & _ & Wx & Wy). rewrite IHe1, IHe2 by assumption. reflexivity.
-    + destruct W as (_ & _ & Wx). auto.
-    + destruct W as (_ & Lx & Wx). rewrite IHe by assumption. destruct e; try discriminate; reflexivity.
-    + destruct W as (Lx & Wx & Wi). rewrite IHe1, IHe2 by assumption. destruct e1; try discriminate; reflexivity.
-    + destruct W as (Lf & Wf & Wa). rewrite IHe by assumption.
-      replace (is_un e) with false by (destruct e; try discriminate; reflexivity). simpl.
-      clear -H Wa. induction a as [|x l IH]; [reflexivity|]. simpl in *.
-      destruct H as [Hx Hl], Wa as [Wx Wl]. rewrite Hx, IH by assumption. reflexivity.
-    + destruct W as (_ & Wx). auto.
-  - revert W. unfold pwf. induction e using expr_ind2; simpl; intros W; auto.
-    + destruct W as (_ & _ & Ly & Wx & Wy). rewrite IHe1, IHe2 by assumption.
-      replace (same_chain_op o e2) with false; [rewrite andb_false_r; reflexivity|].
-      destruct e2; try reflexivity. simpl in *. destruct (op_eqb o0 o) eqn:E; [|reflexivity].
-      apply op_eqb_eq in E. subst. lia.
-    + destruct W as (_ & _ & Wx). auto.
-    + destruct W as (_ & _ & Wx). auto.
-    + destruct W as (_ & Wx & Wi). rewrite IHe1, IHe2 by assumption. reflexivity.
-    + destruct W as (_ & Wf & Wa). rewrite IHe by assumption. simpl.
-      clear -H Wa. induction a as [|x l IH]; [reflexivity|]. simpl in *.
-      destruct H as [Hx Hl], Wa as [Wx Wl]. rewrite Hx, IH by assumption. reflexivity.
-    + destruct W as (_ & Wx). auto.
+  intros e W. unfold v2_safe. apply negb_true_iff.
+  revert W. unfold pwf. induction e using expr_ind2; simpl; intros W; auto.
+  - destruct W as (_ & _ & Ly & Wx & Wy). rewrite IHe1, IHe2 by assumption.
+    replace (same_chain_op o e2) with false; [rewrite andb_false_r; reflexivity|].
+    destruct e2; try reflexivity. simpl in *. destruct (op_eqb o0 o) eqn:E; [|reflexivity].
+    apply op_eqb_eq in E. subst. lia.
+  - destruct W as (_ & _ & Wx). auto.
+  - destruct W as (_ & _ & Wx). auto.
+  - destruct W as (_ & Wx & Wi). rewrite IHe1, IHe2 by assumption. reflexivity.
+  - destruct W as (_ & Wf & Wa). rewrite IHe by assumption. simpl.
+    clear -H Wa. induction a as [|x l IH]; [reflexivity|]. simpl in *.
+    destruct H as [Hx Hl], Wa as [Wx Wl]. rewrite Hx, IH by assumption. reflexivity.
+  - destruct W as (_ & Wx). auto.
 Qed.
 
 (* on every token list the two formatters produce the same tokens *)
@@ -723,9 +712,12 @@ Definition ex_a := EAtom (TIdent [97%N]).
 Definition ex_b := EAtom (TIdent [98%N]).
 Definition ex_c := EAtom (TIdent [99%N]).
 
-Theorem print2_unary_postfix_refuted :
+(* since the fix of wrapForPrecedence: a unary operand of a postfix operator keeps
+   its grouping (formerly the refutation witness K25) *)
+Theorem print2_unary_postfix_parenthesised :
   let e := ESel (EUn SUB ex_a) (TIdent [98%N]) in
-  valid e /\ noparen e /\ parse (print2 e) = Some (EUn SUB (ESel ex_a (TIdent [98%N]))) /\ parse (print1 e) = Some (ESel (EParen (EUn SUB ex_a)) (TIdent [98%N])).
+  valid e /\ noparen e /\ print2 e = print1 e /\
+  parse (print2 e) = Some (ESel (EParen (EUn SUB ex_a)) (TIdent [98%N])).
 Proof. vm_compute. repeat split; reflexivity. Qed.
 
 Theorem print2_chain_refuted :
